@@ -109,19 +109,22 @@ def check_injection(rep, prog):
         rep.ob('R-TPL', '_inject_mutations_%dD signature' % D, params == exp_params, 'parameters %s' % params, im.rel, fn.lineno, what='signature (phi, dt, grids, theta0, flags)')
         stmts = [s for s in fn.body if not (isinstance(s, ast.Expr) and isinstance(s.value, ast.Constant))]
         seen = set()
+        shape_ok = True
         for st in stmts:
             if isinstance(st, ast.Return):
                 rep.ob('R-FLOW', '_inject_mutations_%dD return' % D, ast.unparse(st.value) == 'phi', 'returns %s' % ast.unparse(st.value), im.rel, st.lineno, what='returns the density it updated')
                 continue
-            if D == 1:
-                guard, asg = None, st
+            if D == 1 or isinstance(st, ast.AugAssign):
+                guard, asg = None, st        # an unguarded increment: the guard obligation below decides it
             else:
                 if not (isinstance(st, ast.If) and len(st.body) == 1 and not st.orelse):
-                    rep.ob('R-TPL', '_inject_mutations_%dD' % D, False, 'unexpected statement %s' % ast.unparse(st)[:60], im.rel, st.lineno, what='guarded increments only')
+                    rep.ob('R-TPL', '_inject_mutations_%dD' % D, False, 'statement not recognised: %s' % ast.unparse(st)[:60], im.rel, st.lineno, what='guarded increments only')
+                    shape_ok = False
                     continue
                 guard, asg = st.test, st.body[0]
             if not (isinstance(asg, ast.AugAssign) and isinstance(asg.op, ast.Add) and isinstance(asg.target, ast.Subscript) and ast.unparse(asg.target.value) == 'phi'):
-                rep.ob('R-TPL', '_inject_mutations_%dD' % D, False, 'unexpected statement %s' % ast.unparse(asg)[:60], im.rel, asg.lineno, what='phi[e_k] += value')
+                rep.ob('R-TPL', '_inject_mutations_%dD' % D, False, 'statement not recognised: %s' % ast.unparse(asg)[:60], im.rel, asg.lineno, what='phi[e_k] += value')
+                shape_ok = False
                 continue
             idx = [ast.unparse(e) for e in (asg.target.slice.elts if isinstance(asg.target.slice, ast.Tuple) else [asg.target.slice])]
             ones = [i for i, v in enumerate(idx) if v == '1']
@@ -133,8 +136,8 @@ def check_injection(rep, prog):
             seen.add(k)
             if D > 1:
                 want = {'not frozen%d' % k} | ({'not nomut%d' % k} if D == 2 else set())
-                conj = set(ast.unparse(v) for v in (guard.values if isinstance(guard, ast.BoolOp) and isinstance(guard.op, ast.And) else [guard]))
-                rep.ob('R-DOM', '_inject_mutations_%dD guard axis %d' % (D, k), conj == want, 'guard `%s`; expected %s' % (ast.unparse(guard), ' and '.join(sorted(want))), im.rel, st.lineno,
+                conj = set() if guard is None else set(ast.unparse(v) for v in (guard.values if isinstance(guard, ast.BoolOp) and isinstance(guard.op, ast.And) else [guard]))
+                rep.ob('R-DOM', '_inject_mutations_%dD guard axis %d' % (D, k), conj == want, 'guard `%s`; expected %s' % ('(none)' if guard is None else ast.unparse(guard), ' and '.join(sorted(want))), im.rel, st.lineno,
                        what='no new mutations in a frozen%s population' % ('/nomut' if D == 2 else ''))
             g = grids[k - 1]
             others = [grids[a] for a in range(D) if a != k - 1]
@@ -153,7 +156,8 @@ def check_injection(rep, prog):
             rep.ob('R-ALG', '_inject_mutations_%dD value axis %d' % (D, k), okv, 'increment %s; expected %s' % (ast.unparse(asg.value), ref), im.rel, asg.lineno,
                    what='influx dt*theta0/2 normalised by the trapezoid weights (grids start at 0)')
             rep.ob('R-ALG', '_inject_mutations_%dD mass axis %d' % (D, k), okm, 'value * trapezoid weights * x_1 == dt*theta0/2', im.rel, asg.lineno, what='injected mass per step is dt*theta0/2 * (1/x_1)')
-        rep.ob('R-EXH', '_inject_mutations_%dD axes' % D, seen == set(range(1, D + 1)), 'populations receiving mutations: %s' % sorted(seen), im.rel, fn.lineno, what='one injection per population')
+        rep.ob('R-EXH', '_inject_mutations_%dD axes' % D, seen == set(range(1, D + 1)), 'populations receiving mutations: %s%s' % (sorted(seen), '' if shape_ok else ' (body not recognised)'),
+               im.rel, fn.lineno, what='one injection per population')
 
 
 def check_frozen_migration_guard(rep, prog):
